@@ -217,8 +217,58 @@ var fieldFixed = func() []*big.Int {
 	return l
 }()
 
+// genLimbPattern builds a 256-bit value limb by limb at 26-bit granularity (a 52-bit limb is two of
+// them; the top one has 22 bits): mostly all-ones limbs with a few exceptions, or mostly zero, each
+// exception being zero / all-ones / one below / the corresponding limb of p / that +-1 / random.  The
+// two lowest limbs get the values around p's low limbs (0x3FFFC2F, 0x3FFFFBF) more often.
+func genLimbPattern(t *rapid.T, label string) *big.Int {
+	base := rapid.SampledFrom([]int{0, 0, 0, 1}).Draw(t, label+"_base") // 0: mostly ones, 1: mostly zero
+	v := new(big.Int)
+	for i := 9; i >= 0; i-- {
+		width := uint(26)
+		if i == 9 {
+			width = 22
+		}
+		ones := uint64(1)<<width - 1
+		pl := new(big.Int).Rsh(bigP, uint(i)*26).Uint64() & ones
+		l := ones
+		if base == 1 {
+			l = 0
+		}
+		exc := rapid.IntRange(0, 9).Draw(t, label+"_exc")
+		if i < 2 {
+			exc = rapid.IntRange(0, 3).Draw(t, label+"_exclow")
+		}
+		if exc < 2 || i < 2 && exc < 3 {
+			switch rapid.IntRange(0, 7).Draw(t, label+"_how") {
+			case 0:
+				l = 0
+			case 1:
+				l = ones
+			case 2:
+				l = ones - 1
+			case 3:
+				l = pl
+			case 4:
+				l = pl - 1
+			case 5:
+				l = (pl + 1) & ones
+			case 6:
+				l = 1
+			default:
+				l = rapid.Uint64Range(0, ones).Draw(t, label+"_rnd")
+			}
+		}
+		v.Lsh(v, width)
+		v.Or(v, new(big.Int).SetUint64(l))
+	}
+	return v
+}
+
 func genFieldValue(t *rapid.T, label string) *big.Int {
-	switch rapid.IntRange(0, 9).Draw(t, label+"_kind") {
+	switch rapid.IntRange(0, 12).Draw(t, label+"_kind") {
+	case 10, 11, 12:
+		return genLimbPattern(t, label+"_lp")
 	case 0, 1, 2:
 		return new(big.Int).Set(fieldFixed[rapid.IntRange(0, len(fieldFixed)-1).Draw(t, label+"_fixed")])
 	case 3: // p + k, the whole non-canonical range
